@@ -50,6 +50,9 @@ class SimClock:
         self.cpu = 10.0
         self.lo_ms, self.hi_ms = lo_ms, hi_ms
         self.const_step_ms = const_step_ms
+        # 30 % of the clocks have microsecond resolution, with readings biased towards the end of a wall-clock second
+        # (x.9995 .. x.99999: where rounding instead of truncating a sub-second field overflows it)
+        self.sub_ms = const_step_ms is None and self.rng.random() < 0.3
         self.readings: list[float] = []
         self.reads = 0
         self.stalled = 0.0
@@ -60,7 +63,15 @@ class SimClock:
             ms = self.const_step_ms
         else:
             ms = self.rng.randint(self.lo_ms, self.hi_ms)
-        self.wall = round(self.wall + ms / 1000.0, 3)
+        if self.sub_ms:
+            import math
+            nxt = self.wall + ms / 1000.0 + self.rng.randrange(1000) / 1.0e6
+            if self.rng.random() < 0.06:
+                edge = math.floor(nxt) + 0.9995 + self.rng.randrange(500) / 1.0e6
+                nxt = edge if edge > self.wall else edge + 1.0
+            self.wall = round(nxt, 6)
+        else:
+            self.wall = round(self.wall + ms / 1000.0, 3)
         self.cpu += (ms / 1000.0) * 0.5
 
     def read_wall(self) -> float:
@@ -76,7 +87,7 @@ class SimClock:
         return self.cpu
 
     def advance(self, seconds: float) -> None:
-        self.wall = round(self.wall + seconds, 3)
+        self.wall = round(self.wall + seconds, 6 if self.sub_ms else 3)
         self.stalled += seconds
 
     def reset_readings(self) -> None:
